@@ -20,22 +20,33 @@ ID = 'C11'
 LEVEL = 'proof'
 TIE = {'core.get_n_best, proportional.HighestAverages.evaluate': 'correspondence: implementation on k-fold votes vs the extracted model on the unscaled votes (k up to 10^25+7, 2^60+1)',
        'condorcet.pairwise_wins / CondorcetWinner / Copeland / SmithSet / SchwartzSet': 'models shared with C05/C06 (correspondence there); metamorphic relation on the implementation here',
-       'threshold.RelativeThreshold / AbsoluteThreshold / AlternativeThresholds, approval.QuotaSelector, core.Conditioned(threshold, HighestAverages)':
+       'threshold.RelativeThreshold / AbsoluteThreshold / AlternativeThresholds, approval.QuotaSelector':
            'correspondence: implementation on profiles with parties exactly on / one vote off the line (magnitudes up to 10^30 * total) vs the extracted models '
-           '(threshold and quota-selector models shared with C16 / C09; Conditioned = the highest-averages model on the parties passing the exact rule) '
-           'and vs the rule n*q > total*p evaluated in rationals in the harness',
+           '(threshold and quota-selector models shared with C16 / C09, where the translator ties them too) and vs the rule n*q > total*p evaluated in rationals in the harness',
+       'core.Conditioned(threshold, HighestAverages) = Model/Conditioned.v conditioned_ha':
+           'correspondence (stream threshold-conditioned): the composed model - selector model, the parties it returns kept in vote order, highest-averages model over them - '
+           'vs the implementation on the threshold-line profiles; and independently (threshold-conditioned-exact-rule) the highest-averages model on the parties passing the exact rule computed in the harness',
+       'openlist.ThresholdOpenList = Model/Threshold.v openlist_eval': 'correspondence (stream open-list-line; model shared with C16, translator tie there): a list candidate exactly on / one vote off the '
+           'jump line (fraction of the total as Fraction or Decimal, hare / Hagenbach-Bischoff / Imperiali quota times 1, 1/2, 3/2, higher or lower of the two) at magnitudes up to 3*10^40, vs the extracted model and vs an exact '
+           'Fraction reading of the rule in the harness',
+       'proportional.PureProportionality = Model/PureProp.v pp_evaluate': 'correspondence (stream pure-proportionality): implementation on k-fold votes (k up to 10^30, 7/3; previous gains, maxima, ZeroDivisionError) vs the '
+           'extracted model on the UNSCALED votes, and the exact shares v*n/total in the harness when there are no floors / ceilings',
        'approval.ProportionalApproval / SequentialProportionalApproval': 'correspondence: implementation vs the extracted PAV / SPAV models (shared with C12) and vs an exact '
            'Fraction PAV / SPAV in the harness on constructed exactly tied committees and one-vote leads (3-4 seats, magnitudes up to 10^30): refusal iff exact tie',
-       'all other scale-free evaluators (largest remainder, STV with hare / Hagenbach-Bischoff quota, positional, Bucklin, Schulze, minimax, ranked pairs, Kemeny, score family)': 'metamorphic relation on the implementation only'}
+       'cardinal.STAR, AllocatedScoreSelector (models shared with C12), Benham / TidemanAlternative (C05), Baldwin (C07 / C05), RankedToCondorcetVotes, largest remainder, STV with hare / Hagenbach-Bischoff quota, '
+       'positional, Bucklin, Schulze, minimax, ranked pairs, Kemeny, score family': 'models tied by the correspondence streams of their home properties; metamorphic relation f(k*p) = f(p) on the implementation here'}
 RULE = ('magnitude-differential: C01 generators (random, constructed quotient ties, zero votes / caps) and get_n_best mappings, implementation run on '
         'k*votes for k in {3, 2^60+1, 10^25+7, 7/3}, model run on votes. scale-metamorphic: every scale-free configuration of harness/evalreg.py '
-        '(47 evaluators over simple / approval / ranked / score / pairwise votes) plus 17 threshold-family configurations (RelativeThreshold 1/3, 1/4, 3/100, 1/20 with '
+        '(60 of the 63 evaluator configurations over simple / approval / ranked / score / pairwise votes; the 3 with the Droop quota are proved NOT scale-free) plus 17 threshold-family configurations (RelativeThreshold 1/3, 1/4, 3/100, 1/20 with '
         'accept_equal both ways, each also as Conditioned(threshold, D\'Hondt), AlternativeThresholds) on random profiles, outcome at k in {2, 3, 7, 10^6, 10^25+7} (score '
         'family k <= 1000: one list element per voter) equals the outcome at k = 1, refusals included. threshold-line: simple votes with one or two parties exactly on '
         'a share t of the total (t in 1/3, 3/100, 1/20, 7/100, 1/10, 3/200, 1/5, ... or random p/q, q <= 200), one vote above or one vote below, the offset applied before or '
         'after a k-fold scaling (k in {1, 2, 3, 7, 10^6, 2^53+1, 10^25+7, 10^30}), counts as int / Fraction / genuinely rational, accept_equal both ways: RelativeThreshold, '
         'AbsoluteThreshold (threshold = the line), AlternativeThresholds, Conditioned(threshold, highest averages with any of the five divisors, 1..40 seats), QuotaSelector '
-        '(hare / hagenbach_bischoff when t = 1/n) against the extracted models and against the exact rational rule computed in the harness. approval-exact-ties: PAV / SPAV '
+        '(hare / hagenbach_bischoff when t = 1/n) against the extracted models and against the exact rational rule computed in the harness. open-list-line: the same profiles read as '
+        'preferential votes of a list, jump_fraction = t (Fraction, or Decimal with int counts) and / or a homogeneous quota times 1, 1/2, 3/2, take_higher / accept_equal / list_precedence both ways, 1..m seats, '
+        'random list order, against the extracted model and the exact rule. pure-proportionality: 1-6 parties (zeros, fractions, equal votes), 0-20 seats, previous gains and maxima on random subsets, implementation on '
+        'k-fold votes against the model on the votes. approval-exact-ties: PAV / SPAV '
         'profiles (mostly 3-4 seats) with exactly tied optimal committees / round leaders (found among random small profiles, preferring ties between DIFFERENT sums such as '
         '11/6*2 + ... = 11/6*8 + ..., or constructed by one balancing ballot), the balancing ballot one vote heavier / lighter, each at k = 1 and two magnitudes up to 10^30, '
         'against the extracted PAV / SPAV models and an exact Fraction PAV / SPAV in the harness: tie refusal iff exact tie, committee and its order otherwise. near-tie: pairs (v, v+1) at v in '
@@ -43,10 +54,11 @@ RULE = ('magnitude-differential: C01 generators (random, constructed quotient ti
         'and largest remainder. int-vs-fraction: weights K*w+e (K in {2^52+1, 2^52+2, 2^53, 2^53+1, 10^16+1, 10^30+1}, e in -1..2; a third of the cases '
         'with two or three equally weighted ballot types so that majorities hinge on single votes) given once as int and once as Fraction to every '
         'non-score evaluator: identical outcomes. exact-types: no float in PureProportionality seats, split approvals, exact means, Gregory transfer tallies. '
-        'non-trivial = result contains a tie, or k > 2^53; distinct by case hash')
-PARTIAL = ['scale invariance of ranked pairs / Kemeny / PAV / SPAV / positional / Bucklin / score rules: '
-           'metamorphic relation evaluated on the implementation per explored case, not proved (proved: Schulze C11_scale_schulze, largest remainder C11_scale_largest_remainder, STV C11_scale_stv)',
-           'thresholds, quota selector, PAV, SPAV: exactness is decided per explored case against the extracted models and exact harness oracles (no scale theorem for them)',
+        'non-trivial = result contains a tie, or k > 2^53, or a party / candidate exactly on a line; distinct by case hash')
+PARTIAL = ['every configuration of the registry now has a scale theorem or a proved refutation (docs/C11.md lists them); what stays partial: majority judgment with the DEFAULT tie-break is proved scale-free '
+           'on balanced score dictionaries (complete ballots) only - on partial ballots it is proved NOT scale-free (known finding C11-mj-default-scale)',
+           'the ORDER of the list AlternativeThresholds returns (mean rank, then set iteration order) is not modelled: the selector theorems are about the set of passing parties',
+           'score-family evaluators materialise one list element per voter (known finding C11-score-materialises): their scale factors stay <= 1000 in the metamorphic stream; the theorems hold for every factor',
            'float-freeness of the implementation is by construction a per-case observation (the models compute in Q)']
 TRUSTED = []
 KS = [2, 3, 7, 10 ** 6, 10 ** 25 + 7]
